@@ -19,6 +19,7 @@ Driver for C08.  `T` is `u` (std::size_t instantiation, components ≥ 0) or `s`
 * `map d k a b`               map (x ↦ a*x+b)
 * `apply d1 k1 d2 k2 [d3 k3]` apply (a, bs ↦ fold (acc*1009 + b))
 * `fill d v k`                mkc d v, then fill with enc k
+* `out d k`                   operator<< of the grid
 * `rows w h k`                static_row constructor (N = 2), 1 ≤ w, h ≤ 4
 * `regs d0 k0 d1 k1 d2 k2 P`  three objects, `P` = special-member calls `xxDS` joined by `.` (`-` = none): `cc` copy ctor,
                               `mc` move ctor, `ca` copy assign, `ma` move assign, `sm` member swap, `sf` free swap; D, S slot digits
@@ -250,6 +251,11 @@ def handle (toks : List String) : String :=
     | some d, some v, some k =>
       if okDims [d] && nonneg d then exc ((Grid.mkConst d v).fill (enc k)) gridStr else "bad-op"
     | _, _, _ => "bad-op"
+  | ["out", d, k] =>
+    match L d, I k with
+    | some d, some k =>
+      if okDims [d] && nonneg d then exc (mkGrid d k) fun g => exc (g.output toString) fun o => s!"out={o}" else "bad-op"
+    | _, _ => "bad-op"
   | ["rows", w, h, k] =>
     match String.toNat? w, String.toNat? h, I k with
     | some w, some h, some k => if 1 ≤ w && w ≤ 4 && 1 ≤ h && h ≤ 4 then rowsLine w h k else "bad-op"
